@@ -73,10 +73,46 @@ def fingerprint() -> str:
         finally:
             stack.pop()
     parts = []
+
+    def func_state(qual, f):
+        """Hidden per-function state: default argument values, keyword defaults, closure cells, memo caches."""
+        import functools
+        import types
+        g = getattr(f, "__wrapped__", None)
+        if hasattr(f, "cache_info"):
+            try:
+                parts.append(f"{qual}@cache={f.cache_info().currsize}")
+            except Exception:
+                pass
+        for fn in (f, g):
+            if isinstance(fn, (types.FunctionType,)):
+                if fn.__defaults__:
+                    parts.append(f"{qual}@defaults={canon(list(fn.__defaults__))}")
+                if fn.__kwdefaults__:
+                    parts.append(f"{qual}@kwdefaults={canon(fn.__kwdefaults__)}")
+                if fn.__closure__:
+                    cells = []
+                    for c in fn.__closure__:
+                        try:
+                            v = c.cell_contents
+                        except ValueError:
+                            continue
+                        if isinstance(v, (dict, list, set)):
+                            cells.append(canon(v))
+                    if cells:
+                        parts.append(f"{qual}@closure={cells}")
+
     for m in mods:
         for name, val in sorted(vars(m).items()):
             if name.startswith("__"):
                 continue
+            if callable(val) and getattr(val, "__module__", None) == m.__name__ and not isinstance(val, type):
+                func_state(f"{m.__name__}.{name}", val)
+            if isinstance(val, type) and val.__module__ == m.__name__:
+                for an, av in sorted(vars(val).items()):
+                    raw = av.__func__ if isinstance(av, (staticmethod, classmethod)) else av
+                    if callable(raw) and not isinstance(raw, type):
+                        func_state(f"{m.__name__}.{name}.{an}", raw)
             if isinstance(val, (dict, list, set)) or (hasattr(val, "__dict__") and not isinstance(val, type)
                                                      and type(val).__module__.split(".")[0] in ("a816", "script")):
                 parts.append(f"{m.__name__}.{name}={canon(val)}")
@@ -147,13 +183,30 @@ def cases(ctx):
                      "src": rng.choice(["*=0x408000\nshared:\nprobe_m:\n.dl shared, probe_m\nlda.l shared\n",
                                         "*=0x008000\n.dw k_a\n", "*=0x008000\nprobe_m(2)\n",
                                         "*=0x008000\n.text 'ab'\n", "*=0x018000\n.db shared\n",
-                                        "*=0x008000\n.table 't.tbl'\n.text 'ba'\nshared:\n.dl shared\n"])}
+                                        "*=0x008000\n.table 't.tbl'\n.text 'ba'\nshared:\n.dl shared\n",
+                                        "*=0x008000\n.table 't2.tbl'\n.text 'abab'\nend:\n.dl end\n"])}
+            probe["files"]["t2.tbl"] = {"tbl": [("a", [9])]}
             if probe["rom"] == "low":
                 probe["src"] = probe["src"].replace("0x408000", "0x028000")
         out.append({"kind": "history", "rom": probe.get("rom"), "src": probe["src"], "files": probe.get("files") or {},
                     "history": history, "count_empty": True, "spec": {"t": "twin", "labels": True}})
     return out
 
+
+# probes run when the fingerprint of the process state changed (see observe)
+BATTERY = [
+    {"rom": "low", "files": dict(HIST_FILES), "src": "*=0x028000\nshared:\nprobe_m:\n.dl shared, probe_m\nlda.l shared\n"},
+    {"rom": "low", "files": {}, "src": "*=0x008000\n.dw k_a\n"},
+    {"rom": "low", "files": {}, "src": "*=0x008000\nprobe_m(2)\n"},
+    {"rom": "low", "files": dict(HIST_FILES), "src": "*=0x008000\n.text 'ab'\n"},
+    {"rom": "low", "files": dict(HIST_FILES), "src": "*=0x008000\n.table 't.tbl'\n.text 'abab'\nshared:\n.dl shared\n"},
+    {"rom": "low", "files": {"t2.tbl": {"tbl": [("a", [9])]}}, "src": "*=0x008000\n.table 't2.tbl'\n.text 'abab'\nend:\n.dl end\n"},
+    {"rom": "high", "files": {}, "src": "*=0x408000\nl:\n.dl l\nlda.l l\n"},
+    {"rom": "low", "files": {}, "src": "*=0x7d0000\nnop\n"},
+    {"rom": None, "files": {}, "src": "*=0x018000\n.db 1, 2\n*=0x008000\n.db 3\n"},
+    {"rom": "low", "files": dict(HIST_FILES), "src": "*=0x008000\nbra far\n.incbin 'pad.bin'\nfar:\n"},
+    {"rom": "low", "files": {}, "src": "*=0x008000\n.macro probe_m(a) {\n.dw a\n}\n.scope shared {\nx:\n}\nprobe_m(shared.x)\n"},
+]
 
 BASELINE = ("import json, sys\nfrom a816v import e2e\ncase = json.load(sys.stdin)\n"
             "print('RESULT' + json.dumps(e2e.observe_string_api(case)))\n")
@@ -190,8 +243,21 @@ def observe(case):
         ob["twin"] = {"timeout": True}
         ob["note"] = "repeating the probe in the same process gave a different result"
     if before != after:
-        ob["twin"] = {"timeout": True}
-        ob["note"] = "a module-level object changed during the history"
+        # Some process-level state changed.  That alone is not a violation (a memo of a pure function is harmless): it
+        # directs a wider search - a fixed battery of probes touching every kind of shared object is assembled here,
+        # after the history, and alone in fresh processes; only a probe whose result differs is a violation.
+        ob["state_changed"] = True
+        for extra in BATTERY:
+            here = e2e.observe_string_api(extra)
+            pb = subprocess.run([sys.executable, "-c", BASELINE], input=json.dumps(extra), env=env, capture_output=True,
+                                text=True, timeout=CASE_TIMEOUT)
+            ln = [x for x in pb.stdout.splitlines() if x.startswith("RESULT")]
+            fresh = json.loads(ln[-1][6:]) if ln else {"timeout": True}
+            if strip(here) != strip(fresh):
+                ob["text"], ob["twin"] = here, fresh
+                ob["note"] = "process state changed during the history and this probe assembles differently afterwards"
+                ob["probe"] = extra
+                break
     if cwd_before != cwd_after:
         ob["twin"] = {"timeout": True}
         ob["note"] = "the working directory of the process changed during the history"
